@@ -67,4 +67,28 @@ impl VxDelayMap {
 // message would pop from an empty window: `front().unwrap()`)
 //@ callsite src/bin/adlt/convert.rs adlt::utils::buffer_sort_messages arg 4 name VX_WINDOW_CONVERT type u8 ensure `$v >= 1`
 //@ callsite src/bin/adlt/remote.rs adlt::utils::buffer_sort_messages arg 4 name VX_WINDOW_REMOTE type u8 ensure `$v >= 1`
+// The lifecycle start-time cache `get_lc_start_time` (closure #1): BTreeMap<LifecycleId, u64> in front of the evmap read handle.
+// C10 needs the start time used for a lifecycle id to be a function of the id for the duration of the call: a cached value is
+// never replaced.
+#[verifier::external_body]
+pub struct VxLcCache { m: std::collections::BTreeMap<u32, u64> }
+impl VxLcCache {
+    pub uninterp spec fn m(&self) -> Map<u32, u64>;
+    #[verifier::external_body]
+    pub fn get(&self, k: &u32) -> (r: Option<&u64>) ensures r is Some <==> self.m().dom().contains(*k), r is Some ==> *r->Some_0 == self.m()[*k] { unimplemented!() }
+    #[verifier::external_body]
+    pub fn insert(&mut self, k: u32, v: u64) -> (r: Option<u64>) ensures final(self).m() == old(self).m().insert(k, v) { unimplemented!() }
+}
+// `match lcs_r.read() { Some(map) => match map.get_one(x) { Some(l) => l.start_time, None => 0 }, None => 0 }`: whatever the table says now
+#[verifier::external_body]
+pub fn vx_table_start_time(x: &u32) -> (r: u64) { unimplemented!() }
+//@ extract src/utils/mod.rs closure fn buffer_sort_messages#1
+//@   sig pub fn lc_start_cached(lc_map: &mut VxLcCache, x: &u32) -> (r: u64)
+//@   sub R11 `match lcs_r.read() { __ }` => `vx_table_start_time(x)`
+//@   spec
+//@|    ensures
+//@|        old(lc_map).m().dom().contains(*x) ==> r == old(lc_map).m()[*x] && final(lc_map).m() == old(lc_map).m(), // O:sort.cache.hit (a cached start time is used and never replaced)
+//@|        !old(lc_map).m().dom().contains(*x) ==> final(lc_map).m() == old(lc_map).m().insert(*x, r), // O:sort.cache.miss (the value read is cached)
+//@|        forall|k: u32| #[trigger] old(lc_map).m().dom().contains(k) ==> final(lc_map).m().dom().contains(k) && final(lc_map).m()[k] == old(lc_map).m()[k], // O:sort.cache.stable (during a call the start time used for a lifecycle id does not change)
+//@ end
 // ---- end of units/timesort/window.rs ----
